@@ -370,7 +370,7 @@ func run(raw json.RawMessage, env *rt.Env) rt.Result {
 	var lst listing
 	for i, s := range c.Steps {
 		var err error
-		sig = append(sig, s.A)
+		sig = append(sig, s.A+js(s.X))
 		switch s.A {
 		case "create":
 			o, db, rp, def, b := argInt(s.X[0]), argStr(s.X[1]), argStr(s.X[2]), argBool(s.X[3]), argInt(s.X[4])
